@@ -12,6 +12,7 @@ import (
 	"path/filepath"
 	"sort"
 	"strings"
+	"syscall"
 	"testing"
 	"time"
 
@@ -128,14 +129,27 @@ type RunResult struct {
 	Sim       *simrt.Sim
 	Ctx       *Ctx
 	Infra     string // non-empty: machinery problem (deadlock of the harness, lazy keys, ...)
+	CPU       time.Duration
 }
 
 // onBlowup is installed by the search and replay loops: called (from the
 // watchdog goroutine) when a guarded run is still going after 8 x its guard.
 var onBlowup func(c *Ctx, sc Scenario, st *simrt.Stream, idx int, wall time.Duration)
 
-func blowupMessage(c *Ctx, wall time.Duration) string {
-	return fmt.Sprintf("the run was still going after %.0f s of real time (guard %v) once this input was sent: %s", wall.Seconds(), c.WallGuard, c.WallNote)
+func blowupMessage(c *Ctx, cpu time.Duration) string {
+	return fmt.Sprintf("the run was still going after %.0f s of CPU time (guard %v) once this input was sent: %s", cpu.Seconds(), c.WallGuard, c.WallNote)
+}
+
+// cpuTime is the CPU time (user + system) this process has used. The guard on
+// input handling is measured in CPU time: one run executes at a time in a
+// worker process, and unlike wall-clock time it does not grow when the machine
+// is busy with other work.
+func cpuTime() time.Duration {
+	var ru syscall.Rusage
+	if err := syscall.Getrusage(syscall.RUSAGE_SELF, &ru); err != nil {
+		return 0
+	}
+	return time.Duration(ru.Utime.Nano() + ru.Stime.Nano())
 }
 
 func runOne(t *testing.T, prop, tier string, sc Scenario, st *simrt.Stream, log bool, idx int) *RunResult {
@@ -145,7 +159,7 @@ func runOne(t *testing.T, prop, tier string, sc Scenario, st *simrt.Stream, log 
 		opts = sc.Options(tier)
 	}
 	opts.Log = log
-	wall0 := time.Now()
+	cpu0 := cpuTime()
 	// A run whose scenario set a wall-clock guard (an input whose handling must
 	// take bounded real time) may never come back at all. A watchdog on a real
 	// goroutine outside the simulation then reports the blow-up itself: the
@@ -159,8 +173,8 @@ func runOne(t *testing.T, prop, tier string, sc Scenario, st *simrt.Stream, log 
 			case <-stopWatch:
 				return
 			case <-tick.C:
-				if g := c.WallGuard; g > 0 && onBlowup != nil && time.Since(wall0) > 8*g {
-					onBlowup(c, sc, st, idx, time.Since(wall0))
+				if g := c.WallGuard; g > 0 && onBlowup != nil && cpuTime()-cpu0 > 8*g {
+					onBlowup(c, sc, st, idx, cpuTime()-cpu0)
 					return
 				}
 			}
@@ -173,8 +187,9 @@ func runOne(t *testing.T, prop, tier string, sc Scenario, st *simrt.Stream, log 
 	res := &RunResult{Sim: sim, Ctx: c, Rec: st.Rec}
 	res.Decisions = st.Values()
 	res.Viol = append(res.Viol, c.Viol...)
-	if wall := time.Since(wall0); c.WallGuard > 0 && wall > c.WallGuard {
-		res.Viol = append(res.Viol, Violation{prop, "input-blowup", fmt.Sprintf("the run took %.1f s of real time (guard %v) after this input was sent: %s", wall.Seconds(), c.WallGuard, c.WallNote)})
+	res.CPU = cpuTime() - cpu0
+	if c.WallGuard > 0 && res.CPU > c.WallGuard {
+		res.Viol = append(res.Viol, Violation{prop, "input-blowup", fmt.Sprintf("the run took %.1f s of CPU time (guard %v) after this input was sent: %s", res.CPU.Seconds(), c.WallGuard, c.WallNote)})
 	}
 	for _, p := range sim.Panics {
 		first := p
@@ -504,6 +519,12 @@ func searchMain(t *testing.T, scs []Scenario) int {
 			seenKeys[v.Key] = true
 			// reproduce from the recorded decisions first
 			rep := runOne(t, *fProp, *fTier, sc, simrt.NewReplay(res.Decisions), false, k)
+			if v.Key == "input-blowup" && !hasKey(rep.Viol, v.Key) && res.Ctx.WallGuard > 0 && rep.CPU < res.Ctx.WallGuard/2 {
+				// a measurement that does not come back at even half the guard was
+				// noise of the machine, not a property of the input
+				wr.SlowRuns = append(wr.SlowRuns, map[string]interface{}{"run_index": k, "scenario": sc.Name, "note": "CPU guard exceeded once, not on replay", "cpu_seconds": res.CPU.Seconds(), "replay_cpu_seconds": rep.CPU.Seconds()})
+				continue
+			}
 			if !hasKey(rep.Viol, v.Key) {
 				wr.Infra = append(wr.Infra, fmt.Sprintf("run %d (%s): violation %q did not reproduce from its recorded decisions (nondeterminism in the machinery)", k, sc.Name, v.Key))
 				exit = 2
